@@ -30,7 +30,9 @@ func TestMain(m *testing.M) {
 		Rule: "one child process per case evaluates a generated program through repl.EvalStringWithOption with a depth limit (10 .. default), a deadline (1 ms .. 1 s) and GOMEMLIMIT (64 / 128 / 256 MiB; RLIMIT_AS " +
 			"as a safety net, harness kill timer at deadline + 30 s). Program families: non-terminating loops with and without allocation, unbounded direct / mutual / closure / self recursion, growth operators with huge " +
 			"operands and doubling loops (string and array + and *, ranges, map merge, join, runes, split) including products that overflow, deeply nested source text (parentheses, brackets, blocks, lambdas, prefix " +
-			"operators; depth 10^2 .. 2*10^6, source text up to 1 MB), sleep. Oracle: the child exits by itself (no Go fatal error, no signal, no kill timer); the evaluation call returns within deadline + 3 s (timed inside the child); peak RSS <= 3 x GOMEMLIMIT + 128 MiB; unbounded " +
+			"operators; depth 10^2 .. 2*10^6, source text up to 1 MB), sleep. Growth also covers small values that stand for huge ones through sharing, including (family growth-keys: TestKeySharing, generated, and part of TestGrowthForms) " +
+			"sharing that goes through container-typed map keys: a few levels of maps whose key is an array / map referring 2 .. 100 times to the previous level, a container referring 10^5 .. 10^6 times to the last one, " +
+			"then compared, used as a key, printed or converted (str, json, sprintf, min / max, constant re-binding). Oracle: the child exits by itself (no Go fatal error, no signal, no kill timer); the evaluation call returns within deadline + 3 s (timed inside the child); peak RSS <= 3 x GOMEMLIMIT + 128 MiB; unbounded " +
 			"recursion is reported as a 'max depth' failure. Non-trivial: a guard actually fired (deadline, max depth, memory refusal, nesting limit), read from the child's report; distinct by (program, configuration).",
 		Assumptions: []string{
 			"time and memory are measured quantities: the tolerances (3 s, 3x + 128 MiB) are explicit and wide; a case over the time bound is re-run alone twice and only counts when it exceeds every time",
@@ -189,7 +191,7 @@ func nest(open, leaf, closing string, n int) string {
 
 // growthForms: every program of the growth family, for one huge operand.
 func growthForms(big string) []string {
-	return []string{
+	forms := []string{
 		"\"x\" * " + big,
 		"\"0123456789\" * " + big,
 		"[1] * " + big,
@@ -249,6 +251,7 @@ func growthForms(big string) []string {
 		"a = 1; for 40 { a = [a, a, a] }; for x = a { if x == a { break } }",
 		"a = 1; for 40 { a = [a, a, a] }; m = {1: a, 2: a}; m[1] < m[2]",
 	}
+	return append(forms, keyShareForms()...) // the same through container-typed map keys: c09_keys_test.go
 }
 
 // nestingForms: every syntactic way of nesting (n levels, nb for blocks) or chaining that the family uses.
